@@ -672,7 +672,7 @@ def gen_filter(rng, st, force=None):
         cands = ["Take", "Slice", "Cache", "Chunk", "Params", "Identity", "Unbatch", "Unbatch", "Unbatch", "Finalize", "Finalize"]
     else:
         cands = SEQ_LEVEL + ["Shuffle", "Shuffle", "Cache", "Take", "Finalize", "Repr", "Densify", "Noise", "Where", "Batch", "Unbatch", "OpeNone"]
-        if has_ctx and st["ctx"] in ("value-num", "dense-num", "dense-mixed", "dense-str", "sparse-num", "sparse-mixed"): cands += ["Scale", "Scale"]
+        if has_ctx and st["ctx"] in ("value-num", "dense-num", "dense-mixed", "dense-str", "sparse-num", "sparse-mixed", "densified"): cands += ["Scale", "Scale"]
         if has_ctx and st["ctx"] != "none": cands += ["Impute", "Impute"]
         if has_ctx and st["ctx"] in ("dense-num", "sparse-num") and (st["ctx"] != "sparse-num" or st.get("keys") == "str"): cands += ["Sort", "Sort"]
         if has_ctx and st["acts"] != "empty": cands += ["Sparsify"]
@@ -815,6 +815,28 @@ def gen_case(rng, tier="quick"):
     hl = 5 if tier == "quick" else rng.randint(3, 8)
     shape = {"ctx": st0.get("ctx"), "acts": st0.get("acts")}          # of the source, before the chain (for reach counters only)
     return {"source": source, "chain": chain, "view": view, "history": gen_history(rng, view, n, hl - 1), "shape": shape}
+
+def gen_case_cached_then_rewritten(rng):
+    """<contexts> -> [Densify] -> Cache | Chunk -> Scale | Impute with parameters that are not idempotent, read in full several times:
+    filters that write into the contexts they are given, behind a stage that hands out the SAME stored interactions on every read"""
+    for _ in range(40):
+        source, st = gen_source(rng)
+        st = dict(st)
+        if st.get("ctx") in ("sparse-num", "sparse-mixed", "dense-num", "value-num", "dense-mixed"): break
+    else: return None
+    st0 = dict(st); chain = []
+    if st["ctx"].startswith("sparse"):
+        f = gen_filter(rng, st, force="Densify")
+        if f: chain.append(f)
+    f = gen_filter(rng, st, force=rng.choice(["Cache", "Chunk"]))
+    if f: chain.append(f)
+    f = gen_filter(rng, st, force=rng.choice(["Scale", "Scale", "Impute"]))
+    if not f: return None
+    if f["f"] == "Scale": f["a"].update(shift=rng.choice([1.5, 1, "min"]) if not str(st0["ctx"]).startswith("sparse") or chain[0]["f"] == "Densify" else 0, scale=rng.choice([2, .5, "minmax"]))
+    chain.append(f)
+    n = st.get("n", 5)
+    hist = [["FULL"], ["FULL"], ["PARTIAL", rng.choice([1, 2, n]), rng.choice(["close", "drop"])], ["FULL"]]
+    return {"source": source, "chain": chain, "view": rng.choice(["raw", "final"]), "history": hist, "shape": {"ctx": st0.get("ctx"), "acts": st0.get("acts")}}
 
 # =================================================================================================== generators: large-N cases
 # The regular cases are small (at most 55 interactions): nothing that only shows once a bounded memo / cache / buffer inside a source
@@ -1873,6 +1895,13 @@ def run_shard(ctx):
             if j < 1 and ctx.shard < 2: ctx.sample({"source": spec["source"], "chain": [f["f"] for f in spec["chain"]], "history": spec["history"], "view": spec["view"]})
             j += 1
             continue
+        if i % 12 == 5:
+            cw = gen_case_cached_then_rewritten(random.Random(f"{ctx.seed}/C04/cached-then-rewritten/{ctx.shard}/{i}"))
+            if cw is not None:
+                ctx.count("histories.in-place-writer-behind-a-cache")
+                if any(f["f"] == "Densify" for f in cw["chain"]): ctx.count("histories.in-place-writer-behind-a-cache.densified")
+                for sig, what, witness in check_case(cw, ctx):
+                    ctx.violation(sig, what, witness)
         spec = gen_case(ctx.rng, ctx.tier)
         for sig, what, witness in check_case(spec, ctx):
             ctx.violation(sig, what, witness)
